@@ -28,13 +28,26 @@ Docs == <<
   [lines |-> <<F(3,0,1), F(2,1,0), C(1,2), F(1,0,3)>>, term |-> TRUE],
   [lines |-> <<F(3,0,5), BL, F(3,0,4), H(1)>>, term |-> FALSE]
 >>
+\* a package list of BigN paragraphs whose sort key (the value of the last field name) takes three values in rotation:
+\* many ties between DIFFERENT paragraphs, far from sorted - for the stability clause with a comparator that
+\* looks at the primary key only (set.pk)
+BigN == 40
+RECURSIVE BigLines(_)
+BigLines(i) == IF i > BigN THEN <<>>
+               ELSE (IF i > 1 THEN <<BL>> ELSE <<>>) \o <<F(3, 0, 1 + ((i * 2) % 3)), F(1, 0, 1000 + i)>> \o BigLines(i + 1)
+BigDoc == [lines |-> BigLines(1), term |-> TRUE]
+AllDocs == Docs \o <<BigDoc>>
+BigIdx == Len(Docs) + 1
 VARIABLE case
 Next == UNCHANGED case
-Init == \E d \in 1..Len(Docs), ind \in {1, 4}, fnl \in BOOLEAN, iel \in BOOLEAN, one \in {0, 8, 200},
-           sp \in BOOLEAN, sf \in BOOLEAN, fmt \in {"none", "identity", "split"}, wp \in BOOLEAN :
+Init == \E d \in 1..Len(AllDocs), ind \in {1, 4}, fnl \in BOOLEAN, iel \in BOOLEAN, one \in {0, 8, 200},
+           sp \in BOOLEAN, sf \in BOOLEAN, fmt \in {"none", "identity", "split"}, wp \in BOOLEAN, pk \in BOOLEAN :
           /\ (fnl => ind = 1)
           \* wp = FALSE: Deb822::wrap_and_sort without a paragraph rebuilder (paragraphs are only reordered and re-separated)
           /\ (~wp => ind = 1 /\ ~fnl /\ ~iel /\ one = 0 /\ ~sf /\ fmt = "none")
-          /\ case = [d |-> d, doc |-> Docs[d], set |-> [ind |-> ind, fnl |-> fnl, iel |-> iel, one |-> one, sp |-> sp, sf |-> sf, fmt |-> fmt, wp |-> wp]]
+          \* pk = TRUE: the paragraph comparator looks at the primary key only (ties between different paragraphs)
+          /\ (pk => sp /\ fmt = "none" /\ one = 0 /\ ~iel)
+          /\ (d = BigIdx => pk /\ ind = 1 /\ ~sf)
+          /\ case = [d |-> d, doc |-> AllDocs[d], set |-> [ind |-> ind, fnl |-> fnl, iel |-> iel, one |-> one, sp |-> sp, sf |-> sf, fmt |-> fmt, wp |-> wp, pk |-> pk]]
 Emit == PrintT(<<"REPLAY", ToJson(case)>>)
 =============================================================================
